@@ -105,6 +105,32 @@ func c20Table(r *core.Run, p *core.Program, sfx string, is32 bool) {
 		bad = append(bad, fmt.Sprintf("%d classes (1..255 allowed: class index is a byte)", len(lit.Elems)))
 	}
 	r.Check(len(bad) == 0, rule, "table"+sfx, p.Pos(pos), fmt.Sprintf("%d classes, slots %d..%d bytes with header", len(lit.Elems), lit.Elems[0].Big().Int64()+hdr, prev+hdr), strings.Join(bad, "; "))
+	// slots per page as the allocator computes them: cap[i] = K / slot[i]; all of a page's slots must lie
+	// inside the page after its header, for every class: header + (K/slot)*slot <= page size
+	if na := p.Func(c20Pkg + ".NewAllocator"); na != nil {
+		var kc int64 = -1
+		an.Instrs(na, func(i ssa.Instruction) {
+			st, ok := i.(*ssa.Store)
+			if !ok || !strings.Contains(an.Expr(st.Addr), ".cap[") {
+				return
+			}
+			if bo, ok := st.Val.(*ssa.BinOp); ok && bo.Op == token.QUO && strings.Contains(an.Expr(bo.Y), "sizeClassSlotSize[") {
+				if k, isC := an.ConstOf(bo.X); isC {
+					kc = k.Int64()
+				}
+			}
+		})
+		var over []string
+		if kc >= 0 {
+			for i, el := range lit.Elems {
+				slot := el.Big().Int64() + hdr
+				if hs+(kc/slot)*slot > ps {
+					over = append(over, fmt.Sprintf("class %d (slot %d): %d slots end %d bytes past the page", i, slot, kc/slot, hs+(kc/slot)*slot-ps))
+				}
+			}
+		}
+		r.Check(kc >= 0 && len(over) == 0, rule, "slots-inside-page"+sfx, p.Pos(na.Pos()), fmt.Sprintf("cap[i] = %d / slot[i]; header + cap*slot <= page for all %d classes", kc, len(lit.Elems)), fmt.Sprintf("slots per page computed from %d: %s", kc, strings.Join(over, "; ")))
+	}
 	// the init() adds sizeIncrease == sliceHdrLen exactly once
 	si, okS := an.ConstInt64(pk, "sizeIncrease")
 	r.Check(okS && si == hdr, rule, "increase"+sfx, "-", "each class is enlarged by the slice header size", fmt.Sprintf("sizeIncrease is %d, the slice header is %d", si, hdr))
